@@ -1,7 +1,7 @@
 use crate::binary::sender::SenderKind;
 use crate::streaming::clients::client_manager::Transport;
 use crate::streaming::systems::system::SharedSystem;
-use crate::tcp::connection_handler::{handle_connection, handle_error};
+use crate::tcp::connection_handler::{handle_error, run_connection};
 use std::net::SocketAddr;
 use tokio::net::TcpSocket;
 use tokio::sync::oneshot;
@@ -49,7 +49,7 @@ pub async fn start(address: &str, socket: TcpSocket, system: SharedSystem) -> So
                     let mut sender = SenderKind::get_tcp_sender(stream);
                     tokio::spawn(async move {
                         if let Err(error) =
-                            handle_connection(session, &mut sender, system.clone()).await
+                            run_connection(session, &mut sender, system.clone()).await
                         {
                             handle_error(error);
                             system.read().await.delete_client(client_id).await;
